@@ -87,13 +87,14 @@ def run(v):
     v.add_tlc("MC_Threads", res, {"pairs": len(pairs), "MaxSwitch": 2, "shapes": len(S)})
     flagged = {}
     byloc = {}
+    strong = {}
     for l in res.prints("FOREIGN"):
         val = core.parse_tla(l)
-        pr, t, pc, loc, other_pc = val[1], val[2], val[3], val[4], val[5]
+        pr, t, pc, loc, other_pc, torn = val[1], val[2], val[3], val[4], val[5], val[6]
         i, j, w = pairs[pr - 1]
         # the schedule that realises the foreign read with one preemption of A: if A is the reader, B runs
         # just before A's read (k = pc); if B is the reader, A is stopped where it was (k = other_pc)
-        byloc.setdefault(loc.split("[")[0], set()).add((i, j, w, pc if t == "A" else other_pc))
+        (strong if torn else byloc).setdefault(loc.split("[")[0], set()).add((i, j, w, pc if t == "A" else other_pc))
     # windows on one location are alike: replay a bounded sample per location (all of them when few)
     cap = 60 if quick else 1500
     for loc, pts in sorted(byloc.items()):
@@ -109,7 +110,16 @@ def run(v):
         if not w:
             fills.setdefault((i, j), set()).add(plines[(i, w)][val[2] - 1])
     v.cov["cache_fill_windows_flagged_by_model"] = sum(len(x) for x in fills.values())
+    # torn updates (half-finished updates visible to the other call) are replayed all (bounded per location)
+    cap2 = 400 if quick else 6000
+    for loc, pts in sorted(strong.items()):
+        pts = sorted(pts)
+        if len(pts) > cap2:
+            pts = rng.sample(pts, cap2)
+        for (i, j, w, kk) in pts:
+            flagged.setdefault((i, j, w), set()).add(kk)
     v.cov["scratch_windows_flagged_by_model"] = {loc: len(x) for loc, x in byloc.items()}
+    v.cov["torn_update_windows_flagged_by_model"] = {loc: len(x) for loc, x in strong.items()}
     v.cov["shared_locations_seen"] = len({e[1] for pr in progs.values() for e in pr})
     # ---- replay 1: every flagged pair, access-level preemption at every shared access of A
     jobs, meta = [], []
@@ -164,7 +174,10 @@ def run(v):
         if (i in rebinding or j in rebinding) and not any(sx[:3] == (i, j, w) for sx in suspects):
             suspects.append((i, j, w, r))
     # ---- replay 3: single preemption points at line granularity: sampled for all pairs, all points for suspects
+    budget = 4000 if quick else 60000
     for (i, j, w, r) in suspects:
+        if len(jobs) > budget:
+            break                      # enough schedules to replay; the rest of the suspects is reported from the dense run
         n = r["lines"]
         pts = range(1, n + 1) if n <= 1500 else sorted(set(rng.sample(range(1, n + 1), 1500)) | ({r["first_split"][0]} if r.get("first_split") else set()))
         for kk in pts:
